@@ -15,9 +15,12 @@ Record astate := mkAS {
   x_disk : Z;                (* number of calls that have written to the file so far *)
   (* ghosts, for stating the property: *)
   g_allowed : bool;          (* allow_write() has been called since the last context exit *)
-  g_wctx : bool }.           (* the current context was entered after such an allow_write() *)
+  g_wctx : bool;             (* the current context was entered after such an allow_write() *)
+  (* the environment: *)
+  x_valid : bool }.          (* the file at the object's path currently starts with the TDF signature and a readable
+                                header (somebody else may replace it between two contexts) *)
 
-Definition a_init : astate := mkAS RB false HNone 0 false false.
+Definition a_init : astate := mkAS RB false HNone 0 false false true.
 
 (* the three ways a mutator is guarded *)
 Inductive mkind :=
@@ -39,6 +42,8 @@ Inductive acall :=
 | ExitNormal | ExitExn               (* leaving the with block, normally or by an exception *)
 | Mutator (k : mkind) (valid : bool) (* valid: the request itself is acceptable (C07 covers the rest) *)
 | Reader (r : rkind)
+| Clobber | Restore                  (* not calls on the object: while no context is open somebody replaces the file by
+                                        bytes that are not a TDF file / puts the TDF file back *)
 | CopySwitch.                        (* t = t.copy(path): the client goes on with the object copy() returned, a fresh
                                         Tdf for the new file (the file's content is the same, byte for byte) *)
 
@@ -46,15 +51,21 @@ Definition amode_eqb (a b : amode) : bool :=
   match a, b with RB, RB | RWB, RWB => true | _, _ => false end.
 
 Definition do_enter (s : astate) : astate :=
-  mkAS (x_mode s) true (HOpen (x_mode s)) (x_disk s) (g_allowed s) (g_allowed s).
+  mkAS (x_mode s) true (HOpen (x_mode s)) (x_disk s) (g_allowed s) (g_allowed s) (x_valid s).
 Definition do_exit (s : astate) : astate :=
-  mkAS RB false HClosed (x_disk s) false false.
+  mkAS RB false HClosed (x_disk s) false false (x_valid s).
+(* __enter__: the file is opened, the header is read; when that fails the context is left again (handle closed,
+   mode reset) before the exception is passed on *)
+Definition try_enter (s : astate) : bool * astate :=
+  if x_valid s then (false, do_enter s) else (true, do_exit (do_enter s)).
+(* provide_context_if_needed outside a context: with self: ... *)
+Definition implicit (s : astate) : bool * astate := (negb (x_valid s), do_exit (do_enter s)).
 
 (* outcome: true = the call raised *)
 Definition a_step (s : astate) (c : acall) : bool * astate :=
   match c with
-  | AllowWrite => (false, mkAS RWB (x_inside s) (x_handle s) (x_disk s) true (g_wctx s))
-  | Enter => (false, do_enter s)
+  | AllowWrite => (false, mkAS RWB (x_inside s) (x_handle s) (x_disk s) true (g_wctx s) (x_valid s))
+  | Enter => try_enter s
   | ExitNormal | ExitExn => (false, do_exit s)
   | Mutator k valid =>
       let wguard (s : astate) := negb (x_inside s) && negb (amode_eqb (x_mode s) RWB) in
@@ -62,7 +73,7 @@ Definition a_step (s : astate) (c : acall) : bool * astate :=
       let body (s : astate) :=
         match x_mode s, x_handle s with
         | RWB, HOpen RWB => if valid then (false, mkAS (x_mode s) (x_inside s) (x_handle s) (x_disk s + 1)
-                                                        (g_allowed s) (g_wctx s))
+                                                        (g_allowed s) (g_wctx s) (x_valid s))
                             else (true, s)
         | _, _ => (true, s)      (* PermissionError | write on a read-only / closed / missing handle *)
         end in
@@ -75,14 +86,16 @@ Definition a_step (s : astate) (c : acall) : bool * astate :=
       end
   | Reader RAuto =>
       if x_inside s then (false, s)
-      else (false, do_exit (do_enter s))       (* with self: ... — opened, used, closed *)
+      else implicit s                          (* with self: ... — opened, used, closed; refused if not a TDF file *)
   | Reader RPlain => (false, s)
   | Reader REq =>
       match x_handle s with
       | HNone => (false, s)
-      | _ => if x_inside s then (false, s) else (false, do_exit (do_enter s))
+      | _ => if x_inside s then (false, s) else implicit s
       end
-  | CopySwitch => (false, mkAS RB false HNone (x_disk s) false false)
+  | Clobber => (false, mkAS (x_mode s) (x_inside s) (x_handle s) (x_disk s) (g_allowed s) (g_wctx s) false)
+  | Restore => (false, mkAS (x_mode s) (x_inside s) (x_handle s) (x_disk s) (g_allowed s) (g_wctx s) true)
+  | CopySwitch => (false, mkAS RB false HNone (x_disk s) false false (x_valid s))
   end.
 
 Definition a_run (s : astate) (cs : list acall) : astate :=
@@ -93,6 +106,7 @@ Definition a_enabled (s : astate) (c : acall) : bool :=
   match c with
   | Enter => negb (x_inside s)
   | ExitNormal | ExitExn => x_inside s
+  | Clobber | Restore => negb (x_inside s)      (* the file is not swapped under an open handle *)
   | _ => true
   end.
 
